@@ -5,7 +5,7 @@ sys.path.insert(0, os.path.join(os.path.dirname(os.path.abspath(__file__)), ".."
 from vlib import *
 
 MUST = ["DoAssign", "DoCtorSize", "DoSetAll", "DoResetAll", "DoFlipAll", "DoSetBit", "DoResetBit", "DoFlipBit", "DoIndexWrite",
-        "DoIndexRead", "DoResize", "DoAndAssign", "DoOrAssign", "DoXorAssign", "DoShlAssign", "DoShrAssign", "DoBinary", "DoShift",
+        "DoIndexRead", "DoResize", "DoAndAssign", "DoOrAssign", "DoXorAssign", "DoSelfAssign", "DoSelfBinary", "DoShlAssign", "DoShrAssign", "DoBinary", "DoShift",
         "DoNot", "DoTest", "DoIterate", "DoIterBegin", "DoObserve", "DoIterNext", "DoIterPrev", "DoIterDrop"]
 
 
